@@ -77,7 +77,23 @@ fn run_case(seed: u64, lean: &mut Lean, hist: &mut BTreeMap<String, u64>, sample
         let n = *r.pick(&names);
         let ks = kss[n].clone();
         let has = assigned(variant, n);
-        match r.below(16) {
+        let mut ev = r.below(18);
+        // a compound scenario: pending flushes, a journal rotation, a few single worker steps, then (ev 13) a reopen
+        if ev == 17 {
+            for nn in names { if r.chance(2, 3) && kss[nn].sealed_memtable_count() < 2 && kss[nn].rotate_memtable().unwrap_or(false) { lean.ask(&format!("kv.op rotate {}", ids[nn])); trace.push(format!("rotate {nn}")); } }
+            if let Err(e) = fjall::verif::verif_rotate_journal(dbref!()) { fail!("impl-vs-oracle", "journal rotation failed: {e:?}"); }
+            trace.push("rotate-journal".into());
+            for _ in 0..r.range(1, 2) {
+                if fjall::verif::queued_worker_messages(dbref!()) == 0 { break; }
+                let kind = fjall::verif::verif_worker_step(dbref!()).unwrap();
+                trace.push(format!("worker-step {kind:?}"));
+            }
+            if r.chance(1, 2) { fjall::verif::verif_journal_maintenance(dbref!()).unwrap(); trace.push("journal-maintenance".into()); }
+            for nn in names { diverged.insert(nn, true); }
+            *hist.entry("pending-flush+journal-rotation+worker-step+reopen".into()).or_insert(0) += 1;
+            ev = 13;
+        }
+        match ev {
             0..=5 => {
                 let k = r.pick(&keys).clone();
                 let v = if r.chance(1, 8) { b"REPL".to_vec() } else { vec![b'v', r.below(200) as u8] };
@@ -177,6 +193,21 @@ fn run_case(seed: u64, lean: &mut Lean, hist: &mut BTreeMap<String, u64>, sample
                 trace.push("reopen".into());
                 if saw_filtered { reopened_after_filter = true; }
                 *hist.entry("reopen".into()).or_insert(0) += 1;
+            }
+            16 => {
+                // one worker message only (a flush of one keyspace leaves the others' sealed memtables pending),
+                // sometimes followed by journal maintenance
+                if fjall::verif::queued_worker_messages(dbref!()) > 0 {
+                    let before: Vec<(&str, usize, usize)> = names.iter().map(|n| (*n, kss[n].sealed_memtable_count(), kss[n].table_count())).collect();
+                    let kind = fjall::verif::verif_worker_step(dbref!()).unwrap();
+                    for (nn, s, t) in before {
+                        if kind == Some("flush") && kss[nn].sealed_memtable_count() < s { lean.ask(&format!("kv.op flush {} 0", ids[nn])); }
+                        if kind == Some("compact") && kss[nn].table_count() != t { diverged.insert(nn, true); }
+                    }
+                    trace.push(format!("worker-step {kind:?}"));
+                    *hist.entry("single-worker-step".into()).or_insert(0) += 1;
+                }
+                if r.chance(1, 2) { fjall::verif::verif_journal_maintenance(dbref!()).unwrap(); trace.push("journal-maintenance".into()); }
             }
             _ => {}
         }
